@@ -5,7 +5,8 @@ cd "$(dirname "$0")"
 python3 - <<'PY'
 import sys, os
 sys.path.insert(0, os.path.join(os.getcwd(), "lib"))
-import common
+import common, crashrig
+crashrig.build_shim()
 common.build(need_bin=True)
 print("setup ok")
 PY
